@@ -713,13 +713,14 @@ pub fn items(prop: &str, tier: &str) -> Vec<Item> {
                     for op in ops { f.push(Scenario { name: format!("errno:{}/{}", b, op.brief()), backend: b.into(), op, path: String::new() }); }
                 }
                 // the same for a caller whose /proc is not a procfs (the error-formatting reads fail there and must not disturb the errno)
-                for s in f.iter().filter(|s| s.backend == "K" && matches!(s.op.name.as_str(), "resolve" | "open_subpath" | "mkdir_all" | "readlink")).cloned() {
-                    let mut it = item(s, Plan::Fault { bound: 1, cfg: FaultCfg { all_syscalls: th, per_class: if th { 7 } else { 3 }, eagain_runs: vec![], exhaustion: false, custom: None } }, if th { 40_000 } else { 2_500 });
+                for s in f.iter().filter(|s| s.backend == "K" && (matches!(s.op.name.as_str(), "resolve" | "open_subpath") || (th && matches!(s.op.name.as_str(), "mkdir_all" | "readlink")))).cloned() {
+                    let mut it = item(s, Plan::Fault { bound: 1, cfg: FaultCfg { all_syscalls: th, per_class: if th { 7 } else { 2 }, eagain_runs: vec![], exhaustion: false, custom: None } }, if th { 40_000 } else { 2_500 });
                     it.scen.name = format!("tmpfs-proc:{}", it.scen.name);
                     it.proc_opts = Some("TMPFS".into());
                     v.push(it);
                 }
-                for s in f.into_iter().step_by(if th { 1 } else { 2 }) { v.push(item(s, Plan::Fault { bound: 1, cfg: FaultCfg { all_syscalls: th, per_class: if th { 7 } else { 2 }, eagain_runs: vec![], exhaustion: false, custom: None } }, if th { 40_000 } else { 2_500 })); }
+                // (quick: the emulated backend's walks have hundreds of fault points each - two of them suffice there)
+                for s in f.into_iter().step_by(if th { 1 } else { 2 }).filter(|s| th || s.backend == "K" || matches!(s.op.name.as_str(), "resolve" | "reopen")) { v.push(item(s, Plan::Fault { bound: 1, cfg: FaultCfg { all_syscalls: th, per_class: if th { 7 } else { 2 }, eagain_runs: vec![], exhaustion: false, custom: None } }, if th { 40_000 } else { 2_500 })); }
             }
             // C-API lookups: safety violations from EAGAIN storms (kernel backend) and from attacker schedules (emulated backend)
             for p in ["a/b/c/d", "a/b/../b/c/../../b/c/d"] {
